@@ -254,6 +254,10 @@ func (c *Ctx) namedAssertPred(wantPtrStrip bool, detail *string) func(l Lit) boo
 			// its element
 			for _, a := range P.Resolve(call.Call.Args[0]) {
 				if P.CallTo(a, "(*go/types.Pointer).Elem") != nil {
+					if !P.elemOfUnaliasedPointer(a) {
+						*detail = "the pointer is stripped before aliases are looked through (type P = *T is not seen as a pointer): " + short(P.termDesc(a, false))
+						return false
+					}
 					sawElem = true
 				} else {
 					sawPlain = true
